@@ -991,8 +991,8 @@ func c04R17(ic *IC, r *Report) {
 							// the table of the zero values of the basic types: never stored into
 							stored := ""
 							for _, hd := range ic.G.Funcs {
-								if hd.Decl.Body == nil {
-									continue
+								if hd.Decl.Body == nil || (hd.Decl.Recv == nil && hd.Decl.Name.Name == "init") {
+									continue // filled once, when the package is initialised
 								}
 								ast.Inspect(hd.Decl.Body, func(z ast.Node) bool {
 									if a3, ok := z.(*ast.AssignStmt); ok {
